@@ -260,12 +260,14 @@ static int get_dest_reg(
     }
   }
     else
-  if (reg == 3)
+  if (reg == 3 && Ad == 0)
   {
     strcat(reg_str, regs[reg]);
   }
     else
   {
+    // Indexed mode, including the (unusual) X(CG) which also has an
+    // index word following the opcode.
     if (Ad == 0)
     {
       strcat(reg_str, regs[reg]);
